@@ -9,6 +9,17 @@ PROPS = {
     "C20": {
         "lean_modules": ["AstGrepVerif.Props.C20"],
         "theorems": [
+            "AGV.C20.extract_spec",
+            "AGV.C20.no_hole_foreign_char",
+            "AGV.C20.no_hole_digit_first",
+            "AGV.C20.no_hole_lone_sigil",
+            "AGV.C20.uniform_across_languages",
+            "AGV.C20.langExtract_uniform",
+            "AGV.C20.expando_table_classified",
+            "AGV.C20.underscore_expando_counterexample",
+            "AGV.C20.template_literal",
+            "AGV.C20.template_first_var",
+            "AGV.C20.template_var_names_valid",
             "AGV.C20.anb_iff",
             "AGV.C20.isMatched_no_overflow",
             "AGV.C20.substring_python",
